@@ -7,7 +7,7 @@ class C05(RecorderProp):
     ID = 'C05'
     RULE = ('random histories with capture faults, explicit discards, sampling outcomes, ordinary exceptions and interrupts at '
             'every step incl. inside intercepted bodies; every operation is followed by a replay of the recording it created '
-            'with the same program; the kill switch (enable_recording / disable_recording) flipped by the running code at any step; spy '
+            'with the same program; 30% of the cases declare what-to-do-when-missing policies on inputs; the kill switch (enable_recording / disable_recording) flipped by the running code at any step; spy '
             'cassette log create/save/abort; + operations recorded through the asynchronous wrapper that another thread / the operation '
             'itself closes at every point (before, between and after its interceptions, explicit flushes in between): what the '
             'wrapped cassette then holds replays without a missing key or is flagged incomplete; non-trivial = a run that opened a '
@@ -17,7 +17,11 @@ class C05(RecorderProp):
     N = {'quick': 2500, 'thorough': 25000}
 
     def gen_one(self, rng, tier):
-        case = rg.gen_history(rng, self.OPTS)
+        opts = self.OPTS
+        if rng.random() < 0.3:
+            # inputs declared with what-to-do-when-missing policies: a capture fault on such an input still discards
+            opts = dict(opts, policies=True)
+        case = rg.gen_history(rng, opts)
         runs, created = [], 0
         for run in case['runs']:
             runs.append(run)
@@ -162,6 +166,10 @@ class C05(RecorderProp):
                         and prev['script'] == run['script'] and r['result'] == ['raised', 'RecordingKeyError']:
                     fails.append('run %d: saved, complete recording #%d replayed on unchanged code raised a missing-key error'
                                  % (i, run['rec']))
+                if prev['run'] == 'op' and saved and 'meta' in saved and saved['meta']['incomplete'] is False \
+                        and prev['script'] == run['script'] and r['result'] == ['raised', 'InputInterceptionKeyCreationError']:
+                    fails.append('run %d: complete recording #%d was saved although the key of one of its inputs cannot be built (a capture '
+                                 'failed during the operation): the same program replayed on unchanged code fails to build it' % (i, run['rec']))
         return fails
 
     def nontrivial(self, case, impl):
